@@ -95,4 +95,53 @@ theorem producible_substArgs {σ : Nat → Bytes → Nat × Bytes} (h : SubstOk 
     · exact producible_substArgs h es (fun x hx => hall x (by simp [hx])) a ha
 end
 
+/-! ## the printed form after substitution -/
+
+/-- replace the literal lexemes, keep every other lexeme -/
+def substLex (σ : Nat → Bytes → Nat × Bytes) : Lex → Lex
+  | .lit ty v => .lit (σ ty v).1 (σ ty v).2
+  | l => l
+
+theorem isUn_subst (σ : Nat → Bytes → Nat × Bytes) (e : Expr) : (subst σ e).isUn = e.isUn := by
+  cases e <;> simp [subst, Expr.isUn]
+
+theorem map_symsLex (σ : Nat → Bytes → Nat × Bytes) (ss : List Sym) : (symsLex ss).map (substLex σ) = symsLex ss := by
+  induction ss with
+  | nil => rfl
+  | cons s ss ih =>
+    cases ss with
+    | nil => simp [symsLex, substLex]
+    | cons s' ss' => rw [symsLex, List.map_cons, List.map_cons, ih]; simp [substLex]; simp
+
+theorem map_unLex (σ : Nat → Bytes → Nat × Bytes) (o : UnOp) : o.lex.map (substLex σ) = o.lex := by
+  cases o <;> simp [UnOp.lex, substLex]
+
+mutual
+theorem format_subst (σ : Nat → Bytes → Nat × Bytes) : (t : Expr) → format (subst σ t) = (format t).map (substLex σ)
+  | .val ty v => by simp [subst, format, substLex]
+  | .null => by simp [subst, format, substLex]
+  | .bool b => by simp [subst, format, substLex]
+  | .col n => by simp [subst, format, substLex]
+  | .func n as => by simp [subst, format, substLex, formatArgs_subst σ as]
+  | .paren e => by simp [subst, format, substLex, format_subst σ e]
+  | .and l r => by simp [subst, format, substLex, format_subst σ l, format_subst σ r]
+  | .or l r => by simp [subst, format, substLex, format_subst σ l, format_subst σ r]
+  | .not e => by simp [subst, format, substLex, format_subst σ e]
+  | .is op e => by simp [subst, format, substLex, format_subst σ e, map_symsLex]
+  | .cmp op l r => by simp [subst, format, substLex, format_subst σ l, format_subst σ r, map_symsLex]
+  | .range n l lo hi => by
+    cases n <;> simp [subst, format, substLex, format_subst σ l, format_subst σ lo, format_subst σ hi]
+  | .bin o l r => by simp [subst, format, substLex, format_subst σ l, format_subst σ r]
+  | .un o e => by
+    cases h : e.isUn <;> simp [subst, format, substLex, format_subst σ e, map_unLex, isUn_subst, h]
+theorem formatArgs_subst (σ : Nat → Bytes → Nat × Bytes) :
+    (as : List Expr) → formatArgs (substArgs σ as) = (formatArgs as).map (substLex σ)
+  | [] => by simp [substArgs, formatArgs]
+  | [e] => by simp [substArgs, formatArgs, format_subst σ e]
+  | e :: e' :: es => by
+    have := formatArgs_subst σ (e' :: es)
+    simp only [substArgs] at this ⊢
+    simp [formatArgs, format_subst σ e, this, substLex]
+end
+
 end AcraModel.Sql.Expr
